@@ -366,8 +366,31 @@ def directed(rng, quick):
     return hists
 
 
+def colliding_names():
+    """two different names with the same 32-bit murmur3 value (the list table caches that hash per entry)"""
+    from harrcommon import murmur3_32
+    if murmur3_32(b'qrzrd') == murmur3_32(b'kjppa'):
+        return [b'qrzrd', b'kjppa']
+    import random
+    r = random.Random(12345); seen = {}
+    for _ in range(400000):
+        k = bytes(r.randrange(97, 123) for _ in range(5))
+        h = murmur3_32(k)
+        if h in seen and seen[h] != k:
+            return [seen[h], k]
+        seen[h] = k
+    return [b'a', b'b']
+
+
 def sort_histories(rng, quick):
     hists = []
+    col = colliding_names()
+    # equal cached hashes but different names: inserted larger-first, sorted, looked up, removed
+    for fl in range(16):
+        for order in (col, col[::-1], [col[1], b'm', col[0]], [b'z', col[1], col[0], b'a', col[1]]):
+            ops = ['putstr %s %s' % (hexs(nm), hexs(b'%d' % i)) for i, nm in enumerate(order)]
+            ops += ['sort', 'walk N 9 - 0', 'getmulti %s 0' % hexs(col[0]), 'getmulti %s 0' % hexs(col[1]), 'getstr %s 1' % hexs(col[0]), 'remove %s' % hexs(col[1]), 'sort', 'walk N 9 - 0', 'size']
+            hists.append((fl, ops))
     for _ in range(40 if quick else 400):
         fl = rng.randrange(16)
         n = rng.choice([2, 3, 5, 8, 13, 21, 40])
